@@ -219,3 +219,39 @@ SPECS["C05"] = dict(
 
 # properties whose check is not built yet (kept current; moved to SPECS as they are built)
 NOT_YET = {}
+
+SPECS["C13"] = dict(
+    level="proof",
+    encodes=["gvt/fossil.c:fossil_lp_collect", "fossil_on_gvt", "mm/buddy/multi.c:model_allocator_fossil_lp_collect", "model_allocator_checkpoint_restore (log walk)", "datatypes/array.h:array_truncate_first"],
+    assumptions=["inductive step over an arbitrary history satisfying the structural invariant: processed events in timestamp order, newest entry a processed event, checkpoint positions strictly increasing, each right after a processed event, the oldest not after the first processed event",
+                 "the per-arena state part of a rollback is C05; msg_allocator_free is a recording stub"],
+    outside=["histories longer than the bound", "incremental checkpoints"],
+    queries=[
+        Q("fossil_h6", "c13_fossil.c", defs={"H": 6}, unwind=8, unwindset={"memmove.0": 50, "memmove.1": 50, "memcpy.0": 50}, timeout=900,
+          bounds="history <= 6 entries (processed / local-sent / remote-sent), <= 3 checkpoints, arbitrary GVT, arbitrary later rollback target", cost=5),
+        c05("log_4", "harness_log", "quick", 4, 1, harness="c05_multi.c", unwindset_extra={"memmove.0": 70, "memmove.1": 70}, bounds="checkpoint log of <= 4 entries, arbitrary committed frontier, then an arbitrary rollback"),
+        Q("fossil_h8", "c13_fossil.c", tier="thorough", defs={"H": 8}, unwind=10, unwindset={"memmove.0": 66, "memmove.1": 66, "memcpy.0": 66}, timeout=2400,
+          bounds="history <= 8 entries, <= 3 checkpoints", replaces="fossil_h6"),
+    ],
+)
+
+
+def c12m(name, func, tier, na, tot, blk, timeout=900, defs=None, **kw):
+    d = {"NA": na, "VERIF_B_TOTAL_EXP": "%dU" % tot, "VERIF_B_BLOCK_EXP": "%dU" % blk}
+    d.update(defs or {})
+    return Q(name, "c12_multi.c", tier=tier, func=func, defs=d, unwind=max(18, (1 << tot) + 2), timeout=timeout, mem_gb=20,
+             bounds="one real call from an arbitrary state of <= %d arenas (%d leaves x %d bytes each, arbitrary invariant-satisfying trees, any address order), arbitrary 64-bit request size" % (na, 1 << (tot - blk), 1 << blk), **kw)
+
+
+SPECS["C12"]["queries"] += [
+    c12m("rs_malloc_a2", "harness_malloc", "quick", 2, 4, 1, cost=6),
+    c12m("rs_free_a2", "harness_free", "quick", 2, 4, 1, cost=3),
+    c12m("rs_realloc_a2", "harness_realloc", "quick", 2, 4, 1, cost=9),
+    c12m("rs_realloc_null_a2", "harness_realloc_null", "quick", 2, 4, 1, cost=6),
+    c12m("rs_calloc_a2", "harness_calloc", "quick", 2, 4, 1, cost=6),
+    c12m("rs_calloc_x3_a2", "harness_calloc", "quick", 2, 4, 1, defs={"CALLOC_SIZE": 3}, cost=6),
+    c12m("rs_malloc_a3", "harness_malloc", "thorough", 3, 4, 1, timeout=2400),
+    c12m("rs_free_a3", "harness_free", "thorough", 3, 4, 1, timeout=2400),
+    c12m("rs_realloc_a3", "harness_realloc", "thorough", 3, 4, 1, timeout=3000),
+    c12m("rs_malloc_a2_64", "harness_malloc", "thorough", 2, 6, 3, timeout=2400),
+]
